@@ -666,6 +666,15 @@ func (r *authRun) callbackCase(stateSel, codeSel, issSel, errSel, ckSel, sessSel
 		state = "garbage-state"
 	case 5:
 		state = lstate
+	// near misses of the state bound in attempt A's cookie: the comparison must be exact (whole string, case-sensitive)
+	case 6:
+		state = A.atoms.state[:1]
+	case 7:
+		state = A.atoms.state[:len(A.atoms.state)-1]
+	case 8:
+		state = A.atoms.state + "AAAA"
+	case 9:
+		state = swapASCIICase(A.atoms.state)
 	}
 	if state != "" {
 		q.Set("state", state)
@@ -989,11 +998,14 @@ func runAuth(args []string) error {
 					if issSup {
 						good[2] = 1
 					}
-					for st := 0; st <= 5; st++ {
+					for st := 0; st <= 9; st++ {
 						for cd := 0; cd <= 3; cd++ {
 							for is := 0; is <= 6; is++ {
 								for er := 0; er <= 2; er++ {
 									for ck := 0; ck <= 8; ck++ {
+										if st > 5 && *tier != "thorough" && (er != 0 || cd != 2 || is > 2) {
+											continue // near-miss states: quick tier with the attempt's own code, no error parameter, plain issuers
+										}
 										if is > 2 && *tier != "thorough" && (!issSup || er != 0) {
 											continue // near-miss issuers: quick tier only where the iss parameter is checked and no error parameter masks it
 										}
@@ -1033,4 +1045,25 @@ func runAuth(args []string) error {
 	}
 	fmt.Fprintf(os.Stderr, "auth: %d cases (mode %s)\n", total, *mode)
 	return nil
+}
+
+// swapASCIICase flips the case of every ASCII letter (a value that differs from s only in letter case); when s has no
+// letter the last byte is changed instead.
+func swapASCIICase(s string) string {
+	b := []byte(s)
+	changed := false
+	for i, c := range b {
+		switch {
+		case c >= 'a' && c <= 'z':
+			b[i] = c - 32
+			changed = true
+		case c >= 'A' && c <= 'Z':
+			b[i] = c + 32
+			changed = true
+		}
+	}
+	if !changed && len(b) > 0 {
+		b[len(b)-1] ^= 1
+	}
+	return string(b)
 }
